@@ -438,6 +438,10 @@ func (p *parser) parseForExpression() ast.Expression {
 	}
 
 	ln := p.curToken.LineNumber
+	// break/continue are legal until this loop ends, then whatever held
+	// for the enclosing code holds again
+	outerInFor := p.inForBlock
+	defer func() { p.inForBlock = outerInFor }()
 	p.inForBlock = true
 	s := []string{}
 
@@ -488,8 +492,6 @@ func (p *parser) parseForExpression() ast.Expression {
 	if p.curTokenIs(token.RBRACE) {
 		p.nextToken()
 	}
-
-	p.inForBlock = false
 
 	return expression
 }
@@ -597,6 +599,10 @@ func (p *parser) parseFunctionLiteral() ast.Expression {
 	}
 
 	lit.Parameters = p.parseFunctionParameters()
+	// a function body is not part of an enclosing loop, but the code after
+	// the function literal still is
+	outerInFor := p.inForBlock
+	defer func() { p.inForBlock = outerInFor }()
 	p.inForBlock = false
 
 	if !p.expectPeek(token.LBRACE) {
